@@ -197,6 +197,56 @@ fn huge_message(index: u64, ctx: &mut Ctx) -> Outcome {
     Ok(())
 }
 
+/// A connection that carries messages in one direction only (the other direction's channel list is empty - upload-only or
+/// download-only configurations are legal): the receiving side has nothing to send but acknowledgements, and those must still
+/// flow, or the sender's budget never comes back and it is disconnected although its traffic stays within budget.
+fn one_way(index: u64, ctx: &mut Ctx) -> Outcome {
+    let to_client = index % 2 == 0;
+    let kind = [Kind::Ordered, Kind::Unordered, Kind::Unreliable][(index / 2) as usize % 3];
+    let len = [700usize, 2 * SLICE + 100][(index / 6) as usize % 2];
+    let budget = 12_000usize;
+    ctx.op(&("one_way", to_client, kind, len));
+    let chan = vec![Chan { id: 0, kind, max_mem: budget, resend_ms: 100 }];
+    let cfg = WorldCfg { bytes_per_tick: 60_000, s2c: if to_client { chan.clone() } else { vec![] }, c2s: if to_client { vec![] } else { chan }, n_clients: 1, id_scheme: 0 };
+    let mut w = World::new(cfg, Oracles { memory: true, content: true, ..Default::default() });
+    w.prompt_drain = true;
+    let d = Dir { client: 0, to_client };
+    let mut accepted = 0usize;
+    for tick in 0..60 {
+        if tick < 40 && w.send(d, 0, len, true, 0)? {
+            accepted += 1;
+        }
+        w.advance(50);
+        for dir in [d, d.rev()] {
+            for pid in w.flush(dir)? {
+                w.enqueue(pid, 0);
+            }
+            w.deliver_due(dir, None)?;
+            w.drain_all(dir)?;
+        }
+        mem_disconnects(&w, ctx)?;
+        if let Some(r) = w.sender_reason(d).or(w.receiver_reason(d)) {
+            return Err(Fail::new("one_way_disconnected", format!("a connection with channels in one direction only was disconnected ({r:?}) on a loss-free network with a polite, promptly draining application (tick {tick})")));
+        }
+    }
+    let got = w.dirs[d.idx()].chans[&0].msgs.iter().filter(|m| m.obtained == 1).count();
+    if accepted < 30 || got != accepted {
+        return Err(Fail::new(
+            "one_way_stalled",
+            format!("one-way {kind:?} traffic on a loss-free network: {accepted} messages of {len} bytes were accepted in 40 ticks (budget {budget}), {got} obtained exactly once - acknowledgements do not seem to come back"),
+        ));
+    }
+    let (Some(snd), Some(rcv)) = (w.sender(d), w.receiver(d)) else { return Err(Fail::new("directed_setup", "connection missing")) };
+    let avail = snd.channel_available_memory(0);
+    let recv_used = rcv.verif_receive_memory(0).map(|m| m.0).unwrap_or(0);
+    if avail != budget || recv_used != 0 {
+        return Err(Fail::new("one_way_accounting", format!("after everything was obtained and 20 idle ticks the send channel offers {avail} of {budget} bytes and the receive channel accounts {recv_used}")));
+    }
+    ctx.label("one_way_configuration");
+    ctx.nontrivial = true;
+    Ok(())
+}
+
 impl Property for C09 {
     fn id(&self) -> &'static str {
         "C09"
@@ -205,7 +255,7 @@ impl Property for C09 {
         "fault_enumeration"
     }
     fn rule(&self) -> String {
-        "A case = renet pair, all channel kinds, small budgets (3 kB - 200 kB) so limits are near, size mixes up to 5 slices, drain timing from 'after every delivery' (60% of cases) to 'rarely', per-packet faults biased to duplicates, histories up to 400 (quick) / 2500 (thorough) operations, then heal + quiescence. Oracles after every call: 0 <= used <= max on every send and receive channel (hooks; an underflow is an overflow panic); send-side used == sum of unacknowledged lengths; unreliable send channels offer their whole budget right after a flush; reliable receive accounting <= messages handed over and not yet obtained (sliced ones rounded up to whole slices) - a leak is visible at once; unreliable receive accounting right after an update and a drain <= reserved sizes of fragments that progressed within the last 3 s; quiescence: after heal, full drain and > 3 s every send channel offers exactly max and every receive channel accounts 0; no Send/ReceiveChannelError{MaxMemory} with a polite, promptly draining application, modulo the two listed open findings whose structural signature is computed (A: whole-slice reservation, B: ordered head-of-line buffering). Enumerated besides: the two witnesses of the open findings and one loss-free exchange of a single message of 65 537 slices (thorough: also 65 536 and 70 001) under a 90 MB budget, after which both channels must account nothing. Non-trivial: a duplicate slice arrived after its message was obtained, or an unreliable fragment expired, and the quiescence check was reached. Distinct = hash of the decoded operation trace.".into()
+        "A case = renet pair, all channel kinds, small budgets (3 kB - 200 kB) so limits are near, size mixes up to 5 slices, drain timing from 'after every delivery' (60% of cases) to 'rarely', per-packet faults biased to duplicates, histories up to 400 (quick) / 2500 (thorough) operations, then heal + quiescence. Oracles after every call: 0 <= used <= max on every send and receive channel (hooks; an underflow is an overflow panic); send-side used == sum of unacknowledged lengths; unreliable send channels offer their whole budget right after a flush; reliable receive accounting <= messages handed over and not yet obtained (sliced ones rounded up to whole slices) - a leak is visible at once; unreliable receive accounting right after an update and a drain <= reserved sizes of fragments that progressed within the last 3 s; quiescence: after heal, full drain and > 3 s every send channel offers exactly max and every receive channel accounts 0; no Send/ReceiveChannelError{MaxMemory} with a polite, promptly draining application, modulo the two listed open findings whose structural signature is computed (A: whole-slice reservation, B: ordered head-of-line buffering). Enumerated besides: twelve one-way configurations (the channel list of one direction is empty: the receiving side has only acknowledgements to send; 40 ticks of traffic, everything obtained once, nobody disconnected, the whole budget back), the two witnesses of the open findings and one loss-free exchange of a single message of 65 537 slices (thorough: also 65 536 and 70 001) under a 90 MB budget, after which both channels must account nothing. Non-trivial: a duplicate slice arrived after its message was obtained, or an unreliable fragment expired, and the quiescence check was reached. Distinct = hash of the decoded operation trace.".into()
     }
     fn assumptions(&self) -> Vec<String> {
         vec![
@@ -221,11 +271,14 @@ impl Property for C09 {
         vec!["stale_dup_slice", "quiescence_checked", "prompt_drain", "unrel_fragment_expired", "unrel_bound_checked"]
     }
     fn enums(&self, tier: Tier) -> Vec<(&'static str, u64)> {
-        vec![("directed", 2), ("huge_message", tier.pick(1, 3))]
+        vec![("directed", 2), ("huge_message", tier.pick(1, 3)), ("one_way", 12)]
     }
     fn run_enum(&self, name: &str, index: u64, ctx: &mut Ctx) -> Outcome {
         if name == "huge_message" {
             return huge_message(index, ctx);
+        }
+        if name == "one_way" {
+            return one_way(index, ctx);
         }
         directed(index, ctx)
     }
